@@ -161,7 +161,7 @@ def run(ctx, rep):
     rng = ctx.rng
     rep.rule = ("real runs of the 5 algorithm classes x 2 chromosome families (int lists with NaN/inf-valued genomes, AGraph) x populations 4..8 x "
                 "1..6 generations, with and without a prior evaluation by the caller, islands with halls of fame, serial archipelagos of 2..4 "
-                "islands with migrations; distinct = distinct (algorithm, family, seed); every run is non-trivial (reads happen)")
+                "islands with migrations; scripted-draw runs of VarAnd / VarOr / AddRandomIndividuals; predictor islands (plain and delegating fitness functions, alone and in serial archipelagos), local optimization with worker pools; distinct = distinct (algorithm, family, seed); every run is non-trivial (reads happen)")
     rep.assumptions = ["the fitness function is deterministic in the genome (true for the functions used)"]
     observed = {}
     with ReadMonitor() as mon:
